@@ -37,17 +37,19 @@ pub struct Stats {
     pub by_helper: std::collections::BTreeMap<&'static str, u64>,
     pub early_stops: u64,
     pub max_overrun: u64,
+    pub stop_wait_retries: u64,
 }
 impl Stats {
     pub fn json(&self) -> String {
         let helpers: Vec<String> = self.by_helper.iter().map(|(k, v)| format!("\"{k}\":{v}")).collect();
         format!(
-            "{{\"runs\":{},\"items\":{},\"distinct_schedules\":{},\"early_stops\":{},\"max_overrun_after_failure\":{},\"by_helper\":{{{}}}}}",
+            "{{\"runs\":{},\"items\":{},\"distinct_schedules\":{},\"early_stops\":{},\"max_overrun_after_failure\":{},\"stop_wait_retries\":{},\"by_helper\":{{{}}}}}",
             self.runs,
             self.items,
             self.schedules.len(),
             self.early_stops,
             self.max_overrun,
+            self.stop_wait_retries,
             helpers.join(",")
         )
     }
@@ -227,10 +229,28 @@ pub struct SliceItem {
     pub hits: usize,
 }
 
-pub fn check_slice(n: usize, threads: usize, fail_item: Option<usize>, interrupt_after: Option<usize>, jitter: Jitter, st: &mut Stats, report: Report<'_>) {
+/// what one run of `in_parallel_with_slice` showed
+struct SliceRun {
+    items: Vec<SliceItem>,
+    log: Vec<(usize, usize)>,
+    res: Result<Vec<(usize, usize)>, String>,
+    /// a consumer that started after the failing one waited for the stop flag in vain
+    stop_wait_timed_out: bool,
+}
+
+/// Early stop is judged without any assumption about speed: a consumer that is entered after the failing
+/// consumer was entered waits (inside `consume`) until the stop flag it is handed reads `true`. The implementation
+/// raises the flag right after the failing `consume` returned, so in a correct run the wait ends at once, that
+/// thread then sees the raised flag before fetching its next item, and at most ONE item per other thread is ever
+/// logged after the failing one - for every schedule. If the flag does not come up within a generous bound
+/// (3 s of wall time natively, a yield count under Miri), the run is repeated; only a wait that fails in three
+/// runs in a row is reported.
+fn slice_once(n: usize, threads: usize, fail_item: Option<usize>, interrupt_after: Option<usize>, jitter: &Jitter) -> SliceRun {
     let mut items: Vec<SliceItem> = (0..n).map(|id| SliceItem { id, hits: 0 }).collect();
     let log: Arc<Mutex<Vec<(usize, usize)>>> = Arc::new(Mutex::new(Vec::new()));
     let ticks = AtomicUsize::new(0);
+    let fail_entered = Arc::new(AtomicBool::new(false));
+    let gave_up = Arc::new(AtomicBool::new(false));
     let res = parallel::in_parallel_with_slice(
         &mut items,
         Some(threads),
@@ -238,13 +258,37 @@ pub fn check_slice(n: usize, threads: usize, fail_item: Option<usize>, interrupt
         {
             let log = log.clone();
             let jitter = jitter.clone();
-            move |item: &mut SliceItem, state: &mut (usize, usize), _left: &AtomicIsize, _stop: &AtomicBool| {
+            let fail_entered = fail_entered.clone();
+            let gave_up = gave_up.clone();
+            move |item: &mut SliceItem, state: &mut (usize, usize), _left: &AtomicIsize, stop: &AtomicBool| {
                 item.hits += 1;
                 state.1 += 1;
-                log.lock().unwrap().push((state.0, item.id));
+                let failing = Some(item.id) == fail_item;
+                let after_failure = {
+                    let mut l = log.lock().unwrap();
+                    l.push((state.0, item.id));
+                    let after = fail_entered.load(Ordering::SeqCst);
+                    if failing {
+                        fail_entered.store(true, Ordering::SeqCst);
+                    }
+                    after
+                };
                 jitter.apply(state.0, item.id);
-                if Some(item.id) == fail_item {
+                if failing {
                     return Err(format!("consumer fails at {}", item.id));
+                }
+                if after_failure && !gave_up.load(Ordering::SeqCst) {
+                    let started = std::time::Instant::now();
+                    let mut spins = 0u64;
+                    while !stop.load(Ordering::Relaxed) {
+                        spins += 1;
+                        let expired = if cfg!(miri) { spins > 200_000 } else { started.elapsed() > std::time::Duration::from_secs(3) };
+                        if expired || gave_up.load(Ordering::SeqCst) {
+                            gave_up.store(true, Ordering::SeqCst);
+                            break;
+                        }
+                        std::thread::yield_now();
+                    }
                 }
                 Ok(())
             }
@@ -259,6 +303,19 @@ pub fn check_slice(n: usize, threads: usize, fail_item: Option<usize>, interrupt
         |state| state,
     );
     let log = log.lock().unwrap().clone();
+    let stop_wait_timed_out = gave_up.load(Ordering::SeqCst);
+    SliceRun { items, log, res, stop_wait_timed_out }
+}
+
+pub fn check_slice(n: usize, threads: usize, fail_item: Option<usize>, interrupt_after: Option<usize>, jitter: Jitter, st: &mut Stats, report: Report<'_>) {
+    let mut run = slice_once(n, threads, fail_item, interrupt_after, &jitter);
+    let mut timed_out_runs = 0;
+    while run.stop_wait_timed_out && timed_out_runs < 2 {
+        timed_out_runs += 1;
+        st.stop_wait_retries += 1;
+        run = slice_once(n, threads, fail_item, interrupt_after, &jitter);
+    }
+    let SliceRun { items, log, res, stop_wait_timed_out } = run;
     st.items += log.len() as u64;
     st.sched("in_parallel_with_slice", &log);
     let ctx = format!("in_parallel_with_slice n={n} threads={threads} fail_item={fail_item:?} interrupt_after={interrupt_after:?}");
@@ -267,6 +324,13 @@ pub fn check_slice(n: usize, threads: usize, fail_item: Option<usize>, interrupt
             report("exactly-once|in_parallel_with_slice|item-consumed-twice", format!("{ctx}: item {} consumed {} times", it.id, it.hits));
             return;
         }
+    }
+    if stop_wait_timed_out {
+        report(
+            "early-stop|in_parallel_with_slice|stop-flag-not-raised-after-failure",
+            format!("{ctx}: in three runs in a row a consumer entered after the failing one did not see the stop flag raised (bounded wait)"),
+        );
+        return;
     }
     match res {
         Ok(states) => {
@@ -292,12 +356,12 @@ pub fn check_slice(n: usize, threads: usize, fail_item: Option<usize>, interrupt
                 return;
             }
             st.early_stops += 1;
-            // after the failing item was consumed, at most one more item per other thread may start
+            // every consumer entered after the failing one has seen the raised flag before it returned (see slice_once),
+            // so its thread stops before the next item: at most one logged item per other thread, whatever the schedule
             let pos = log.iter().position(|e| Some(e.1) == fail_item).unwrap_or(log.len());
             let overrun = log.len().saturating_sub(pos + 1);
             st.max_overrun = st.max_overrun.max(overrun as u64);
-            // each other thread may be inside one item and may fetch one more before it sees the flag
-            if overrun > 2 * threads {
+            if overrun > threads.saturating_sub(1) {
                 report("early-stop|in_parallel_with_slice|consumed-after-failure", format!("{ctx}: {overrun} items consumed after the failing one"));
             }
         }
